@@ -62,6 +62,15 @@ fn main() {
             npw: 1 + r.below(2) as usize, keys: { let n = r.below(3) as usize; (0..n).map(|_| r.below(pool.len() as u64) as usize).collect() }, anon: r.chance(1, 4),
             armor: r.chance(1, 3), armor_ck: r.chance(1, 2),
         };
+        // the first configurations are directed: 64-octet AEAD chunks pull the plaintext stream in small pieces, so that the one-pass
+        // packets of every signer set put the literal header at a different offset of a chunk (a header served in two reads)
+        let mut cfg = cfg;
+        let directed = ci < 10;
+        if directed {
+            let sets: [&[usize]; 10] = [&[], &[0], &[1], &[4], &[0, 2], &[0, 1], &[1, 4], &[0, 2, 3], &[0, 0, 2, 2], &[1, 1]];
+            cfg.enc = 2; cfg.cs = 0; cfg.comp = None; cfg.reader_source = ci % 2 == 1; cfg.pchunk = None; cfg.armor = false; cfg.text = false;
+            cfg.signers = sets[ci].to_vec(); cfg.sym = SymmetricKeyAlgorithm::AES128; cfg.aead = AeadAlgorithm::Ocb;
+        }
         // sizes on and next to every boundary this configuration has
         // the builder leaves the file name field of the literal packet empty whatever name it was given (see the known finding)
         let hl = 6usize;
@@ -74,10 +83,11 @@ fn main() {
         // on the 8 KiB buffer of the stream encryptors: every offset that the headers of some configuration can take up
         for d in 0..=40i64 { if (d + ci as i64) % 2 == 0 && (thorough || ci % 3 == 0) { sizes.push(8192 - d); sizes.push(16384 - d); } }
         for _ in 0..2 { sizes.push(r.below(3000) as i64); }
+        if directed { sizes = vec![0, 1, 100, 185, 186, 187, 200, 8377, 8378, 8379, 9000]; }
         sizes.retain(|s| *s >= 0 && *s <= if thorough { 2_200_000 } else { 70_000 });
         sizes.sort(); sizes.dedup();
         // keep the run bounded: all sizes in thorough, a rotating third in quick
-        let sizes: Vec<i64> = if thorough { sizes } else { sizes.iter().enumerate().filter(|(i, _)| (i + ci) % 3 == 0).map(|(_, s)| *s).collect() };
+        let sizes: Vec<i64> = if thorough || directed { sizes } else { sizes.iter().enumerate().filter(|(i, _)| (i + ci) % 3 == 0).map(|(_, s)| *s).collect() };
         for n in sizes {
             let n = n as usize;
             let payload: Vec<u8> = if cfg.text || cfg.mode == b'u' { let mut v = Vec::with_capacity(n); while v.len() < n { v.extend_from_slice(*cx.rng.pick(&[&b"line of text\r\n"[..], b"x\n", b"\r", b"caf\xc3\xa9 ", b"0123456789"])); } v.truncate(n); while std::str::from_utf8(&v).is_err() && !v.is_empty() { v.pop(); } v } else { cx.rng.bytes(n) };
@@ -139,6 +149,10 @@ fn main() {
                     let mut buf = vec![0u8; 1 + (seed % 5000) as usize];
                     loop { let k = m2.read(&mut buf).map_err(|e| e.to_string())?; if k == 0 { break; } out.extend_from_slice(&buf[..k]); }
                     let name = m2.literal_data_header().map(|h| String::from_utf8_lossy(h.file_name()).to_string()).unwrap_or_default();
+                    // the other literal metadata: the date the builder wrote (0) and the data mode it was asked for
+                    let meta = m2.literal_data_header().map(|h| (h.created().as_secs(), format!("{:?}", h.mode())));
+                    let want_mode = if cfg.mode == b'u' { "Utf8" } else { "Binary" };
+                    if let Some((date, mode)) = &meta { if *date != 0 || (!cfg.text && mode != want_mode) { return Err(format!("LITERAL-METADATA date={date} mode={mode} (written: date=0 mode={want_mode})")); } }
                     let mut all = true;
                     for s in &cfg.signers { all &= m2.verify(&pubs[*s]).is_ok() || m2.verify_nested(&[&pubs[*s]]).map(|v| v.iter().any(|r| matches!(r, pgp::composed::VerificationResult::Valid(_)))).unwrap_or(false); }
                     Ok((out, name, all))
